@@ -387,6 +387,20 @@ def hand_seeds():
         add(lambda: rec.TlsRecord(b'fragment'))
     except ImportError:
         pass
+    # one Content-Security-Policy value per directive name (the corpus uses a handful of them)
+    try:
+        from cryptoparser.httpx import header as hh
+        for m in hh.ContentSecurityPolicyDirectiveType:
+            for tail in (" 'self'", '', ' allow-forms', " 'script'", ' text/html', ' https://r.example/', ' default'):
+                try:
+                    o = hh.HttpHeaderFieldValueContentSecurityPolicy.parse_exact_size(
+                        (m.value.code + tail).encode('ascii'))
+                except Exception:  # noqa
+                    continue
+                add(lambda o=o: o)
+                break
+    except ImportError:
+        pass
     if hasattr(ext, 'TlsExtensionDelegatedCredentials'):
         cls = ext.TlsExtensionDelegatedCredentials
         inst = harvest_objects.instances_by_class()
